@@ -101,11 +101,16 @@ def job_list_model(ctx):
     except Exception:
         return None
     pool = [('a', 50), ('b', 70), ('c', 200000), ('d', 5000000), ('*', 0)]
+    # every integer constant of the construction is a potential length threshold: contigs just below, exactly at and just above it
+    consts = sorted({c_.value for st_ in body for c_ in ast.walk(st_) if isinstance(c_, ast.Constant) and isinstance(c_.value, int) and not isinstance(c_.value, bool) and c_.value >= 2})
+    edge = [(f'e{i}{j}', v_ + d_) for i, v_ in enumerate(consts[:3]) for j, d_ in enumerate((-1, 0, 1))]
+    combos = [combo for k in range(0, 5) for combo in itertools.permutations(pool, k) if not (k == 4 and combo[0][0] > combo[-1][0])]
+    combos += [(e_,) for e_ in edge] + [(e_, pool[0]) for e_ in edge] + [(pool[2], e_, pool[4]) for e_ in edge] + [tuple(edge)]
     n = 0
     try:
-        for k in range(0, 5):
-            for combo in itertools.permutations(pool, k):
-                if k == 4 and combo[0][0] > combo[-1][0]:
+        for combo in combos:
+            if True:
+                if False:
                     continue
                 n += 1
 
